@@ -374,6 +374,8 @@ def run(ctx):
     check_listing_writer_reentrant(db, rep, "D19-LISTING-WRITER-REENTRANT")
     from x86enc import check_listing_lines_terminated
     check_listing_lines_terminated(db, rep, "D20-LISTING-LINES-TERMINATED")
+    from x86enc import check_is4_operand_first
+    check_is4_operand_first(db, rep, "D21-IS4-OPERAND-FIRST")
     from vexroles import check_vex_rxb_roles
     nvr = check_vex_rxb_roles(db, rep, "D12-VEX-RXB-ROLES")
     if nvr < 5:
